@@ -796,9 +796,16 @@ func (g *Gen) GenOrderLimitTop(i int) *Top {
 	r := g.R
 	t := &Table{Name: "t1.csv", Cols: []string{"a", "b"}, Types: []Kind{KInt, KStr}}
 	distinct := 1 + r.Intn(3)
+	if i%4 == 3 {
+		distinct = 3 + r.Intn(2)
+	}
 	var pool [][]Val
 	for k := 0; k < distinct; k++ {
 		row := []Val{Int(int64(r.Intn(3))), Str(simpleStrings[r.Intn(len(simpleStrings))])}
+		if i%4 == 3 {
+			// keys whose differences do not fit in an int64
+			row[0] = Int([]int64{math.MaxInt64, math.MinInt64 + 1, -3, 1, 0, math.MaxInt64 - 1}[r.Intn(6)])
+		}
 		if r.Chance(1, 6) {
 			row[0] = Null()
 		}
@@ -1129,4 +1136,38 @@ func (g *Gen) nameMapItems(items []Item, fs []Field, out []Field) {
 		}
 	}
 	markAmbiguous(out)
+}
+
+// GenTriggerTop: GROUP BY k TRIGGER COUNTING n over a table in which each key occurs several times and many
+// aggregate inputs are NULL or repeat, with aggregates that ignore NULLs (and, for the DISTINCT ones, repetitions):
+// a key fires, fires again with unchanged aggregates, then with changed ones.  The final rows must be the grouping.
+func (g *Gen) GenTriggerTop(i int) *Top {
+	r := g.R
+	t := &Table{Name: "t1.csv", Cols: []string{"k", "v"}, Types: []Kind{KStr, KInt}}
+	nrows := 6 + r.Intn(6)
+	for j := 0; j < nrows; j++ {
+		row := []Val{Str(simpleStrings[r.Intn(2+i%2)]), Int(int64(r.Intn(3)))}
+		if r.Chance(2, 5) {
+			row[1] = Null()
+		}
+		t.Rows = append(t.Rows, row)
+	}
+	t.Rows[0][1] = Int(1)
+	g.Tables = []*Table{t}
+	q := &Query{From: Source{Kind: "table", Table: t.Name, Alias: "t1"}, GroupBy: []Expr{Col{Name: "k"}}}
+	q.Items = []Item{{E: Col{Name: "k"}, Alias: g.fresh("k")}}
+	aggs := []Item{{Agg: "sum", E: Col{Name: "v"}}, {Agg: "max", E: Col{Name: "v"}}, {Agg: "min", E: Col{Name: "v"}},
+		{Agg: "count", E: Col{Name: "v"}}, {Agg: "count", Dist: true, E: Col{Name: "v"}}, {Agg: "sum", Dist: true, E: Col{Name: "v"}},
+		{Agg: "array_agg", Dist: true, E: Col{Name: "v"}}}
+	n := 1 + r.Intn(2)
+	for j := 0; j < n; j++ {
+		it := aggs[r.Intn(len(aggs))]
+		it.Alias = g.fresh("g")
+		q.Items = append(q.Items, it)
+	}
+	q.Trigger = []string{"COUNTING 1", "COUNTING 1", "COUNTING 2", "COUNTING 1, ON END OF STREAM"}[i%4]
+	g.Triggers = append(g.Triggers, q)
+	g.shape("trigger family " + q.Trigger)
+	q.OrderBy = []OrderKey{{E: Col{Name: q.Items[0].Alias}, Desc: r.Bool()}}
+	return &Top{Main: q}
 }
